@@ -394,6 +394,201 @@ class C14(Property):
         return cases
 
 
+BRACE_COMPONENTS = ["{a}", "{a}{b}", "{a}_{b}", "x{a}", "{a}x", "{a}x{b}y", "p{a}q{b}r{a}", "{a", "a}", "}{", "{}", "{{a}}",
+                    "{a}{a}", "{a}b{c", "x}b{a}", "{a}}", "{missing}", "{a}{missing}", "pre{b}{a}post.o", "{e}", "x{e}", "{e}{e}y"]
+
+
+class C07(Property):
+    pid = "C07"
+    title = "emitted paths"
+    owns_errors = ("CustomOptionInPathNotProvided",)
+    rule = ("valid-stream documents whose path-valued fields (base_path, segment dir, group dir, path, target_path, d_path, "
+            "symbols_header_path, partial folders, -o) carry 0..3 {key} markers per component at leading/inner/trailing/adjacent "
+            "positions, repeated and missing keys, empty values and values containing '/' or braces, nesting depth 0..3, both modes, "
+            "plus a lattice of 22 brace patterns x 9 fields; non-trivial when some component has two markers or a marker sits in a dir")
+
+    def profile(self, r):
+        return Profile(p_braces=0.8, p_group=0.4, max_depth=3, p_missing_key=0.12, dpath=0.7, header=0.6, p_partial=0.4,
+                       p_cond=0.15, p_pad=0.05, p_offset=0.05)
+
+    def tweak(self, r, c):
+        # sprinkle awkward components
+        fs = [f for f in all_files(c["doc"])]
+        for f in fs:
+            if "path" in f and r.chance(0.25):
+                f["path"] = "/".join([r.pick(BRACE_COMPONENTS) for _ in range(r.below(2))] + [r.pick(BRACE_COMPONENTS) + ".o"])
+            if f.get("kind") == "group" and r.chance(0.3):
+                f["dir"] = r.pick(BRACE_COMPONENTS)
+        have = {k for k, _ in c["opts"]}
+        for k, v in (("a", "us"), ("b", "v1"), ("c", "x/y"), ("e", "")):
+            if k not in have and r.chance(0.85):
+                c["opts"].append([k, v if r.chance(0.8) else r.pick(["", "q{b}", "a/b", "}", "{"])])
+        if r.chance(0.5) or c["mode"] == "partial":
+            c["out"] = r.pick(["out/{a}.ld", "script.ld", "o/{a}{b}/s.ld", "{version}.ld"])
+        if c["mode"] == "partial":
+            st = c["doc"].setdefault("settings", {})
+            st.setdefault("target_path", "rom.elf")
+            st.setdefault("d_path", r.pick(["rom.d", "d/{a}.d"]))
+            if r.chance(0.5):
+                st["partial_build_segments_folder"] = r.pick(["seg/{a}", "{a}{b}", "pb/x{b}", "{version}/o"])
+            if r.chance(0.3):
+                st["partial_scripts_folder"] = r.pick(["ps/{a}", "{b}"])
+            have = {k for k, _ in c["opts"]}
+            if "version" not in have:
+                c["opts"].append(["version", "us"])
+
+    def nontrivial(self, c):
+        import re
+        def strs(t):
+            if isinstance(t, str):
+                yield t
+            elif isinstance(t, dict):
+                for k, v in t.items():
+                    if k in ("path", "dir", "base_path", "target_path", "d_path", "symbols_header_path",
+                             "partial_scripts_folder", "partial_build_segments_folder"):
+                        yield from strs(v)
+                    elif isinstance(v, (dict, list)):
+                        yield from strs(v)
+            elif isinstance(t, list):
+                for v in t:
+                    yield from strs(v)
+        for s in strs(c["doc"]):
+            for comp in s.split("/"):
+                if len(re.findall(r"\{[^{}]*\}", comp)) >= 2:
+                    return True
+        return any("{" in (f.get("dir") or "") for f in all_files(c["doc"])) or \
+            any("{" in (s.get("dir") or "") for s in c["doc"].get("segments", []))
+
+    def evaluate(self, w, c):
+        impl, v = w.eval(c, [self.pid])
+        res = self.judge(c, impl, v, w)
+        if res["status"] != "ok" or not fs_safe(c) or "out" not in c:
+            return res
+        fimpl, fv = eval_files(w, c)
+        res["files_checked"] = True
+        if fimpl.get("outcome") in ("panic", "abort", "timeout"):
+            res.update(status="violation", why="file export %s" % fimpl.get("outcome"))
+        elif not fv.get("outcome_agree"):
+            kinds = {fimpl.get("err_kind"), fv.get("model_err")} - {None}
+            if kinds & set(self.owns_errors):
+                res.update(status="violation", why="file export: outcome differs: impl %s/%s model %s/%s" % (
+                    fimpl.get("outcome"), fimpl.get("err_kind"), fv.get("model_outcome"), fv.get("model_err")))
+        elif fimpl.get("outcome") == "ok" and sorted(fimpl.get("files", {})) != sorted(fv.get("model_paths", [])):
+            res.update(status="violation", why="output locations: " + fv.get("diff", ""))
+        elif fimpl.get("outcome") == "ok" and any(p.endswith(".d") for p in fv.get("unequal", [])):
+            res.update(status="violation", why="paths in a written dependency file differ from base/dir/.../path with every {key} replaced: "
+                       + ",".join(p for p in fv["unequal"] if p.endswith(".d")))
+        return res
+
+    def extra_cases(self, tier):
+        cases = []
+        fields = ["base_path", "seg_dir", "group_dir", "path", "target_path", "d_path", "symbols_header_path",
+                  "partial_scripts_folder", "partial_build_segments_folder"]
+        i = 0
+        for comp in BRACE_COMPONENTS:
+            for fld in fields:
+                for optset in ([["a", "us"], ["b", "v1"], ["e", ""]], [["a", "x/y"], ["b", "{a}"], ["e", ""]], [["b", "only"]]):
+                    i += 1
+                    if tier != "thorough" and i % 3:
+                        continue
+                    st = {"base_path": "build", "target_path": "t.elf", "d_path": "t.d", "symbols_header_path": "h/s.h",
+                          "partial_scripts_folder": "ps", "partial_build_segments_folder": "pb"}
+                    grp = {"kind": "group", "dir": "g", "files": [{"path": "in.o"}, {"path": "lib.a", "subfile": "m.o"}]}
+                    seg = {"name": "main", "dir": "sd", "files": [{"path": "top.o"}, grp]}
+                    if fld in st:
+                        st[fld] = ("d/" + comp) if fld != "base_path" else comp
+                    elif fld == "seg_dir":
+                        seg["dir"] = comp + "/z"
+                    elif fld == "group_dir":
+                        grp["dir"] = "y/" + comp
+                    else:
+                        grp["files"][0]["path"] = comp + "/" + comp
+                    doc = {"settings": st, "segments": [seg]}
+                    cases.append({"id": "br%d" % i, "seed": i, "stream": "lattice:braces", "doc": doc, "opts": optset,
+                                  "mode": "partial" if i % 2 else "normal", "version_comment": False, "out": "o/" + comp + ".ld"})
+        return cases
+
+
+class C17(Property):
+    pid = "C17"
+    title = "top-level statements and _gp"
+    rule = ("valid-stream documents with entry, symbol assignments (all four flag combinations), required symbols, asserts, "
+            "gp_info on any segment/section/offset or a hardcoded value, conditions on all of them, multi-segment, single-segment and "
+            "partial modes; non-trivial when the document has at least two statement kinds or a gp_info")
+
+    def profile(self, r):
+        return Profile(p_toplevel=0.75, p_gp=0.6, p_cond=0.35, p_single=0.2, p_partial=0.3, p_align=0.5, p_missing_key=0.0)
+
+    def tweak(self, r, c):
+        # section alignments on the gp section, to pin the position of `_gp`
+        for s in c["doc"].get("segments", []):
+            gp = s.get("gp_info")
+            if isinstance(gp, dict) and r.chance(0.6):
+                sec = gp.get("section", ".sdata")
+                s.setdefault("sections_start_alignment", {})[sec] = 0x10
+                if r.chance(0.5):
+                    s["section_start_align"] = 8
+
+    def nontrivial(self, c):
+        d = c["doc"]
+        kinds = sum(1 for k in ("entry", "symbol_assignments", "required_symbols", "asserts") if d.get(k))
+        return kinds >= 2 or any("gp_info" in s for s in d.get("segments", [])) or \
+            "hardcoded_gp_value" in (d.get("settings") or {})
+
+
+class C18(Property):
+    pid = "C18"
+    title = "allowlist, denylist, discard"
+    rule = ("valid-stream documents with every emptiness/flag combination of sections_allowlist, sections_allowlist_extra, "
+            "sections_denylist, discard_wildcard_section (incl. names on both an allowlist and the denylist), classes, multi-segment, "
+            "single-segment and partial sub-scripts; non-trivial when one of the four settings has a non-default value")
+
+    def profile(self, r):
+        return Profile(p_settings_field=0.55, p_classes=0.4, p_single=0.2, p_partial=0.35, p_missing_key=0.0)
+
+    def tweak(self, r, c):
+        st = c["doc"].setdefault("settings", {})
+        if r.chance(0.15):
+            st["sections_allowlist"] = [".got", ".mdebug"]
+        if r.chance(0.15):
+            st["sections_allowlist_extra"] = []
+        if r.chance(0.1):
+            st["sections_denylist"] = []
+            st["discard_wildcard_section"] = False
+
+    def nontrivial(self, c):
+        st = c["doc"].get("settings") or {}
+        return any(k in st for k in ("sections_allowlist", "sections_allowlist_extra", "sections_denylist", "discard_wildcard_section"))
+
+    def extra_cases(self, tier):
+        import itertools
+        cases = []
+        i = 0
+        for al, ex, dn, wc, kind in itertools.product(([], [".mdebug", ".got"]), ([], [".symtab"], None), ([], [".got", ".junk"], None),
+                                                      (True, False, None), ("multi", "single", "partial", "classes")):
+            i += 1
+            st = {"partial_scripts_folder": "ps", "partial_build_segments_folder": "pb"}
+            if al:
+                st["sections_allowlist"] = al
+            if ex is not None:
+                st["sections_allowlist_extra"] = ex
+            if dn is not None:
+                st["sections_denylist"] = dn
+            if wc is not None:
+                st["discard_wildcard_section"] = wc
+            segs = [{"name": "boot", "files": [{"path": "a.o"}]}, {"name": "main", "files": [{"path": "b.o"}]}]
+            doc = {"settings": st, "segments": segs}
+            if kind == "single":
+                st["single_segment_mode"] = True
+                doc["segments"] = segs[:1]
+            if kind == "classes":
+                doc["vram_classes"] = [{"name": "c1", "fixed_vram": 0x80100000}, {"name": "c2", "follows_classes": ["c1"]}]
+                segs[1]["vram_class"] = "c2"
+            cases.append({"id": "tl%d" % i, "seed": i, "stream": "lattice:tail", "doc": doc, "opts": [],
+                          "mode": "partial" if kind == "partial" else "normal", "version_comment": False})
+        return cases
+
+
 OVER = ["alloc_sections", "noload_sections", "subalign", "segment_start_align", "segment_end_align",
         "section_start_align", "section_end_align", "sections_start_alignment", "sections_end_alignment",
         "wildcard_sections", "fill_value", "sections_subgroups"]
@@ -483,4 +678,4 @@ class C08(Property):
         return cases
 
 
-PROPS = {p.pid: p for p in [C06(), C08(), C12(), C13(), C14()]}
+PROPS = {p.pid: p for p in [C06(), C07(), C08(), C12(), C13(), C14(), C17(), C18()]}
